@@ -3,6 +3,11 @@ import LdkModel.Model.FundConf
 namespace Ldk.FundConf
 open Ldk.FundConfGen
 
+/-! ### round 6: the translated decisions of the transactions_confirmed candidate loop, in the shape the lemmas below
+    were written for. Both are `rfl` against Generated/FundConf.lean: a changed expression in channel.rs breaks them. -/
+@[simp] theorem confirmLoopErr_eq (a b : Bool) : confirmLoopErr a b = (a || b) := rfl
+@[simp] theorem confirmLoopMark_eq (n : Nat) : confirmLoopMark n = (n != 0) := rfl
+
 theorem confirmations_zero_of_lt {k h : Nat} (hk : h < k) : confirmations k h = 0 := by
   unfold confirmations; split <;> simp_all
 
@@ -261,6 +266,7 @@ theorem confirmLoop_spec (t h : Nat) : ∀ (l : List Scope) (acc : List Scope ×
         exact Or.inr (Or.inl ⟨g, List.mem_cons_of_mem _ hg, h2, h3⟩)
       · exact Or.inr (Or.inr h1)
     unfold confirmLoop
+    simp only [confirmLoopErr_eq, confirmLoopMark_eq]
     by_cases herr : err = true
     · simp only [herr, if_true]
       exact ⟨lift f _ (Or.inr rfl), fun f0 hf0 => (ih _).2 f0 hf0⟩
@@ -573,7 +579,7 @@ theorem txs_single_unconfirmed (h : Nat) (h0 : h ≠ 0) (f : Scope) (hf : f.conf
 theorem mainRetracted_eq {c : Chan} {h : Nat} (hm0 : c.main.confHeight ≠ 0) (hmh : c.main.confHeight ≤ h) :
     mainRetracted c h = c.main ∧ mainUnconfirmedCloses c h = false := by
   have hc := confirmations_pos_of_le hm0 hmh
-  unfold mainRetracted mainUnconfirmedCloses mainRetractHeight mainRetractConfIn mainRetractScid
+  unfold mainRetracted mainUnconfirmedCloses mainCloseGuard mainRetractHeight mainRetractConfIn mainRetractScid
   simp [hc]
 
 /-- one unconfirmed candidate: do_best_block_updated changes nothing -/
@@ -757,6 +763,7 @@ theorem confirmLoop_noop (t h : Nat) : ∀ (l done : List Scope) (idx : Option S
     have hrest : ∀ g ∈ rest, (confirmGuard g.confHeight && g.txid == t) = false :=
       fun g hg => hno g (List.mem_cons_of_mem _ hg)
     unfold confirmLoop
+    simp only [confirmLoopErr_eq, confirmLoopMark_eq]
     simp only [hf]
     by_cases hc : (f.confHeight != 0) = true
     · have e := ih (f :: done) idx true hrest
@@ -1012,5 +1019,128 @@ theorem connect_order_one_of_several (c : Chan) (pre suf : List Scope) (f : Scop
     simp [locksOf]
   · simp only [hmem, if_false] at eT eT'
     simp only [eB, eT, eT', hlt, if_false, Nat.lt_irrefl]
+
+/-! ### round 6: the force-close decision of do_best_block_updated (translated mainCloseGuard) -/
+
+theorem mainCloseGuard_iff (r o : Bool) (confs : Nat) (w : Bool) (md : Nat) :
+    mainCloseGuard r o confs w md = true ↔ (r = true ∨ o = true) ∧ confs = 0 ∧ w = true ∧ 0 < md := by
+  unfold mainCloseGuard
+  simp [and_assoc]
+
+theorem confirmations_eq_zero_iff (k h : Nat) : confirmations k h = 0 ↔ k = 0 ∨ h < k := by
+  unfold confirmations
+  by_cases hk : k = 0
+  · simp [hk]
+  · by_cases hlt : h < k
+    · simp [hk, hlt]
+    · simp [hk, hlt]
+
+theorem mainUnconfirmedCloses_iff (c : Chan) (h : Nat) :
+    mainUnconfirmedCloses c h = true ↔
+      (c.main.confIn = true ∧ (c.main.confHeight = 0 ∨ h < c.main.confHeight) ∧ 0 < c.minDepth) := by
+  unfold mainUnconfirmedCloses
+  rw [mainCloseGuard_iff, confirmations_eq_zero_iff]
+  constructor
+  · rintro ⟨_, h1, h2, h3⟩; exact ⟨h2, h1, h3⟩
+  · rintro ⟨h2, h1, h3⟩; exact ⟨Or.inl rfl, h1, h2, h3⟩
+
+theorem spliceSection_closed (c : Chan) (h : Nat) :
+    (spliceSection c h).1.closed = (c.closed || decide (confirmedCount c.cands ≥ 2)) := by
+  unfold spliceSection
+  by_cases hcnt : confirmedCount c.cands ≥ 2
+  · simp [hcnt]
+  · rw [if_neg hcnt]
+    split <;> simp [hcnt]
+
+/-- do_best_block_updated force-closes an open ready channel EXACTLY when the translated un-confirmed guard fires or
+    two candidates are recorded as confirmed -/
+theorem bbu_closed_iff (c : Chan) (h : Nat) (hc : c.closed = false) :
+    (chanBestBlockUpdated c h).1.closed = true ↔
+      (c.main.confIn = true ∧ (c.main.confHeight = 0 ∨ h < c.main.confHeight) ∧ 0 < c.minDepth) ∨
+      confirmedCount c.cands ≥ 2 := by
+  unfold chanBestBlockUpdated
+  rw [if_neg (by simp [hc])]
+  by_cases hm : mainUnconfirmedCloses c h = true
+  · rw [if_pos hm]
+    exact ⟨fun _ => Or.inl ((mainUnconfirmedCloses_iff c h).1 hm), fun _ => rfl⟩
+  · rw [if_neg hm, spliceSection_closed]
+    constructor
+    · intro h1
+      have : decide (confirmedCount c.cands ≥ 2) = true := by simpa [hc] using h1
+      exact Or.inr (by simpa using this)
+    · rintro (h1 | h1)
+      · exact absurd ((mainUnconfirmedCloses_iff c h).2 h1) hm
+      · simp [h1]
+
+/-- the channel funding before channel_ready, reorganised below its recorded confirmation: nothing is produced, and the
+    channel is force-closed exactly when our channel_ready had been sent -/
+theorem preBBU_closed_of_lt (p : Pre) (h : Nat) (hc : p.closed = false) (hin : p.main.confIn = true)
+    (hlt : h < p.main.confHeight) (hmd : p.minDepth ≠ 0) :
+    (preBestBlockUpdated p h).1.closed = p.ourReady ∧ (preBestBlockUpdated p h).2 = false := by
+  obtain ⟨h1, _, _⟩ := preRetracted_of_lt p h hlt
+  have hpos : 0 < p.minDepth := Nat.pos_of_ne_zero hmd
+  have hck : preCheckReady { p with main := preRetracted p h } h = ({ p with main := preRetracted p h }, false) := by
+    unfold preCheckReady
+    simp [h1, meetsMinDepth_zero hmd]
+  unfold preBestBlockUpdated
+  rw [if_neg (by simp [hc]), hck]
+  unfold preFinish mainCloseGuard
+  cases ho : p.ourReady <;> simp [confirmations_zero_of_lt hlt, hin, hc, hpos]
+
+/-! ### round 6: the two-confirmations error of the transactions_confirmed candidate loop (translated confirmLoopErr /
+    confirmLoopMark) -/
+
+theorem confirmLoop_err_stays (t h : Nat) : ∀ (l done : List Scope) (idx : Option Scope) (al : Bool),
+    (confirmLoop t h l (done, idx, al, true)).2.2.2 = true := by
+  intro l
+  induction l with
+  | nil => intro done idx al; rfl
+  | cons f rest ih => intro done idx al; rw [confirmLoop_cons, if_pos rfl]; exact ih _ _ _
+
+/-- once funding_already_confirmed is set, any candidate that confirms later in the list is an error -/
+theorem confirmLoop_err_of_already (t h : Nat) : ∀ (l done : List Scope) (idx : Option Scope),
+    (∃ f ∈ l, (confirmGuard f.confHeight && f.txid == t) = true) →
+    (confirmLoop t h l (done, idx, true, false)).2.2.2 = true := by
+  intro l
+  induction l with
+  | nil => intro done idx ⟨f, hf, _⟩; cases hf
+  | cons g rest ih =>
+    intro done idx hex
+    rw [confirmLoop_cons, if_neg (by simp)]
+    by_cases hg : (confirmGuard g.confHeight && g.txid == t) = true
+    · rw [if_pos hg, if_pos (by simp)]
+      exact confirmLoop_err_stays t h rest _ _ _
+    · rw [if_neg hg]
+      have hex' : ∃ f ∈ rest, (confirmGuard f.confHeight && f.txid == t) = true := by
+        obtain ⟨f, hf, hfg⟩ := hex
+        rcases List.mem_cons.1 hf with rfl | hf
+        · exact absurd hfg hg
+        · exact ⟨f, hf, hfg⟩
+      by_cases hc : (g.confHeight != 0) = true
+      · rw [if_pos hc]; exact ih _ _ hex'
+      · rw [if_neg hc]; exact ih _ _ hex'
+
+/-- transactions_confirmed: a transaction that confirms candidate `g` while a candidate EARLIER in
+    negotiated_candidates already has a recorded confirmation force-closes the channel -/
+theorem txs_second_confirmation_closes (c : Chan) (h t : Nat) (ts : List Nat) (pre suf : List Scope) (g : Scope)
+    (hcl : c.closed = false) (hc : c.cands = pre ++ g :: suf)
+    (hpre : ∀ f ∈ pre, (confirmGuard f.confHeight && f.txid == t) = false)
+    (hany : ∃ f ∈ pre, f.confHeight ≠ 0) (hg : g.confHeight = 0) (hgt : g.txid = t) :
+    (chanTxsConfirmed c h (t :: ts)).1.closed = true := by
+  have hloop : (confirmLoop t h c.cands ([], none, false, false)).2.2.2 = true := by
+    rw [hc, confirmLoop_append, confirmLoop_noop t h pre [] none false hpre]
+    have hany' : pre.any (fun f => f.confHeight != 0) = true := by
+      obtain ⟨f, hf, h0⟩ := hany
+      exact List.any_eq_true.2 ⟨f, hf, by simpa using h0⟩
+    rw [hany']
+    simp only [Bool.false_or]
+    exact confirmLoop_err_of_already t h (g :: suf) _ none ⟨g, List.mem_cons_self, by simp [confirmGuard, hg, hgt]⟩
+  unfold chanTxsConfirmed
+  simp only [hcl, Bool.false_eq_true, if_false]
+  generalize confirmLoop t h c.cands ([], none, false, false) = r at hloop
+  obtain ⟨done, idx, al, err⟩ := r
+  simp only [] at hloop
+  subst hloop
+  simp
 
 end Ldk.FundConf
